@@ -13,3 +13,9 @@ var runtimeVerifSeed uint64
 
 // seedRuntime makes the runtime's tie-breaking a function of the plan's seed.
 func seedRuntime(seed uint64) { runtimeVerifSeed = mix64(seed^0x7f4a7c15) | 1 }
+
+// runtimeGoidFn is runtime.verifGoidFn of the overlaid runtime: the id of the
+// calling goroutine.
+//
+//go:linkname runtimeGoidFn runtime.verifGoidFn
+var runtimeGoidFn func() uint64
